@@ -14,7 +14,7 @@ func init() {
 	register(&propertyDef{
 		id:    "C02",
 		title: "steps start only after their dependencies, with the data those produced",
-		rules: []ruleFunc{c02R1, c02R2, c02R3, c02R4, c02R5, c02R6, c02R7, c02R8, c02R9, c02R10, c02R11},
+		rules: []ruleFunc{c02R1, c02R2, c02R3, c02R4, c02R5, c02R6, c02R7, c02R8, c02R9, c02R10, c02R11, c02R12, c02R13},
 		decided: "every expression kind that is resolved at run time is also wired into the DAG at prepare time (walker agreement, R1); every dependency of an expression, every lifecycle ordering and every one-of option becomes a DAG connection on every loop iteration (R2); " +
 			"every stage input field and every workflow output is walked for dependencies and is what the node later evaluates (R3); resolution, data publication and notification happen in that order in one critical section (R4); " +
 			"all DAG/data-model helpers run under the run lock (R5); the step receives the resolved, validated data of its own node (R6). The tree walkers descend into every element of maps and lists (R7). Shared: the run path writes nothing into prepared objects shared by all runs (R8 = C14.R1); starting.started is published only after the plugin executor was launched (R9 = C12.R13).",
@@ -1089,4 +1089,74 @@ func walkerEffect(root string) string {
 		return "validated"
 	}
 	return "converted"
+}
+
+// C02.R13 literal values reach the stage as they are written.
+func c02R13(c *Ctx) {
+	const rule = "C02.R13"
+	c.explain("C02.R13 the conversion of the workflow's YAML tree hands a plain scalar over as Node.Value() itself — not trimmed, re-formatted or otherwise rewritten: the constant parts of a stage input are part of the data the stage is fed with, and a multi-line block scalar that loses its last line break is a different value")
+	fn := c.Fn("workflow.yamlBuildExpressions")
+	if fn == nil {
+		return
+	}
+	n := 0
+	for _, body := range c.logicalBody(fn) {
+		eachInstr(body, func(r instrRef) {
+			ret, ok := r.I.(*ssa.Return)
+			if !ok {
+				return
+			}
+			res := retResults(ret)
+			if len(res) == 0 {
+				return
+			}
+			fromValue := derivesFromArgOrSelf(res[0], func(v ssa.Value) bool {
+				call, ok := v.(*ssa.Call)
+				return ok && call.Common().IsInvoke() && call.Common().Method.Name() == "Value" && strings.HasSuffix(call.Common().Value.Type().String(), "internal/yaml.Node")
+			})
+			if !fromValue {
+				return
+			}
+			n++
+			okc := passedUnchanged(res[0], func(v ssa.Value) bool {
+				call, ok := v.(*ssa.Call)
+				return ok && call.Common().IsInvoke() && call.Common().Method.Name() == "Value"
+			})
+			c.verdict(okc, rule, fmt.Sprintf("scalar@%s#%d", c.fnName(body), n), c.instrPos(ret), "a plain scalar is returned as Node.Value() itself", "a plain scalar of the workflow is rewritten before it becomes stage input data (the returned value is computed from Node.Value(), it is not Node.Value()): the stage is not fed what the workflow states")
+		})
+	}
+	c.minCount(rule, "returns of plain scalars", n, 1)
+}
+
+// derivesFromArgOrSelf: v is target, or the result of calls / conversions applied to target (one argument deep, three levels).
+func derivesFromArgOrSelf(v ssa.Value, target func(ssa.Value) bool) bool {
+	var walk func(v ssa.Value, d int) bool
+	walk = func(v ssa.Value, d int) bool {
+		if d > 4 || v == nil {
+			return false
+		}
+		if target(v) {
+			return true
+		}
+		switch x := v.(type) {
+		case *ssa.MakeInterface:
+			return walk(x.X, d+1)
+		case *ssa.ChangeType:
+			return walk(x.X, d+1)
+		case *ssa.Convert:
+			return walk(x.X, d+1)
+		case *ssa.Call:
+			for _, a := range x.Common().Args {
+				if walk(a, d+1) {
+					return true
+				}
+			}
+		case *ssa.Slice:
+			return walk(x.X, d+1)
+		case *ssa.BinOp:
+			return walk(x.X, d+1) || walk(x.Y, d+1)
+		}
+		return false
+	}
+	return walk(v, 0)
 }
